@@ -46,6 +46,8 @@ def int_(*args, **kw):
         v = x.elems[0]
         if _real_isinstance(v, (SNum, SBool)):
             return int_(v)
+        if _real_isinstance(v, str):
+            return int_(v, *args[1:], **kw)        # a NumPy str_ element: int(np.str_('0b101'), 2)
         if _real_isinstance(v, float) and (v != v or v in (float('inf'), float('-inf'))):
             return int(v)   # raises like CPython
         return int(v)
